@@ -1,6 +1,7 @@
 """property id -> harness modules that decide it."""
 REGISTRY = {
     "C11": {"harnesses": ["harness.h11"], "level": "other"},
+    "C16": {"harnesses": ["harness.h16"], "level": "other"},
     "C17": {"harnesses": ["harness.h17"], "level": "other"},
     "C20": {"harnesses": ["harness.h20"], "level": "other"},
     "C18": {"harnesses": ["harness.h18"], "level": "other"},
